@@ -54,6 +54,19 @@ func (d *recDS) Put(ctx context.Context, k datastore.Key, v []byte) error {
 			return fmt.Errorf("no space left on device (injected)")
 		}
 	}
+	if k.String() == "/_remoteHeads" {
+		// the same for the remote-heads key (written at the end of a replication round)
+		d.c.mu.Lock()
+		fail := d.c.failRPuts > 0
+		if fail {
+			d.c.failRPuts--
+			d.c.rputFailed++
+		}
+		d.c.mu.Unlock()
+		if fail {
+			return fmt.Errorf("no space left on device (injected)")
+		}
+	}
 	err := d.Datastore.Put(ctx, k, v)
 	if err == nil && d.c.onPut != nil {
 		d.c.onPut(d.key, k.String(), v)
@@ -68,6 +81,9 @@ type memCache struct {
 	onPut func(db, key string, v []byte)
 	// failPuts: how many of the next Puts of `_localHeads` fail
 	failPuts int
+	// failRPuts: how many of the next Puts of `_remoteHeads` fail; rputFailed: how many did, not yet reported
+	failRPuts  int
+	rputFailed int
 }
 
 func newMemCache() *memCache { return &memCache{m: map[string]*recDS{}} }
@@ -154,6 +170,7 @@ type World struct {
 	lenBefore      int  // log length before the write in progress
 	heldFirst      map[string]chan struct{}
 	heldTaken      map[string]chan struct{}
+	lastStore iface.Store // address family: the store of the last successful createdb
 	acSimple  bool     // scenario flag ac=simple: the `simple` access controller instead of the default `ipfs` one
 	acWrite   []string // its write list
 	reuseOpts      bool // address family: each peer passes one options value to every create/open
@@ -776,6 +793,15 @@ func (w *World) flushLoadEnds(p int, s iface.Store) {
 			w.printf("rev %d %s %s\n", p, ev.kind, w.nameOfHash(ev.hash))
 		}
 	}
+	// injected failures of the `_remoteHeads` Put hit the first batches of this flush, in order
+	c := w.peers[p].cache
+	c.mu.Lock()
+	nfail := c.rputFailed
+	c.rputFailed = 0
+	c.mu.Unlock()
+	if nfail > 0 {
+		w.printf("rputfail %d %d\n", p, nfail)
+	}
 	for _, logs := range batches {
 		parts := make([]string, len(logs))
 		for i, l := range logs {
@@ -796,6 +822,8 @@ func (w *World) resetScenario(id string) {
 	for _, pr := range w.peers {
 		pr.cache.mu.Lock()
 		pr.cache.failPuts = 0
+		pr.cache.failRPuts = 0
+		pr.cache.rputFailed = 0
 		pr.cache.mu.Unlock()
 	}
 	w.blocks.Reset()
@@ -814,6 +842,7 @@ func (w *World) resetScenario(id string) {
 	w.extraStores = nil
 	w.roots = nil
 	w.lastAddr = ""
+	w.lastStore = nil
 	w.closedStores = nil
 	w.closedOf = map[int]iface.Store{}
 	for _, es := range w.esubs {
